@@ -219,6 +219,15 @@ def run(facts, rep, int_ty='i64', repo='/repo'):
                 if seen_sw and not cand:
                     continue            # neither Ok nor Err: infeasible path
                 arm = list(cand)[0] if (seen_sw and len(cand) == 1) else None
+                # `run().unwrap_or_else(|e| ..)`: the closure is the Err arm; if it never returns, what follows is the Ok arm
+                for e in p.calls():
+                    if e.name.split('::')[-1] == 'unwrap_or_else' and 'result::Result' in e.name and len(e.args) == 2 and subject(e.args[0]) and strip(e.args[1])[0] == 'closure':
+                        from symex import apply_closure
+                        qs = apply_closure(e.args[1], [('err',)], follow_diverge=True) or []
+                        if qs and all(q.end != 'return' for q in qs):
+                            arm = 0 if arm is None else arm
+                            for q in qs:
+                                out.append((1, [c for c in q.calls() if c.name.endswith('io::_print')], [c for c in q.calls() if c.name.endswith('process::exit')], [], q))
                 prints = [e for e in p.calls() if e.name.endswith('io::_print')]
                 exits = [e for e in p.calls() if e.name.endswith('process::exit')]
                 fwd = [(e, i) for e in p.calls() if e.name.startswith('ykh::') and e.name in facts.bodies
